@@ -28,7 +28,7 @@ use rand::Rng;
 use serde_json::{json, Value};
 
 fn small(x: i64) -> bool {
-    x.abs() < (1 << 31) - 1
+    x.unsigned_abs() < (1 << 31) - 1
 }
 
 fn clean(s: &str) -> String {
@@ -165,9 +165,9 @@ struct Stats {
 // abstract programs (spec/Qasm.tla) and their rendering to concrete text
 // ---------------------------------------------------------------------------------------
 
-/// spellings of a phase k/d * pi.  All but the `plain*` ones denote the rational exactly.
+/// spellings of a phase k/d * pi.  All but the PLAIN_FORMS (decimals, checked with a tolerance) denote the rational exactly.
 const EXACT_FORMS: [&str; 6] = ["kpi_d", "pi_d", "frac_pi", "pi_frac", "dec_pi", "paren"];
-const PLAIN_FORMS: [&str; 2] = ["plain", "plain11"];
+const PLAIN_FORMS: [&str; 3] = ["plain", "plain11", "mixed"];
 
 fn render_param(form: &str, k: i64, d: i64) -> String {
     let sign = if k < 0 { "-" } else { "" };
@@ -193,6 +193,11 @@ fn render_param(form: &str, k: i64, d: i64) -> String {
         "dec_pi" => format!("{}*pi", k as f64 / d as f64),
         "plain" => format!("{:.6}", k as f64 / d as f64 * std::f64::consts::PI),
         "plain11" => format!("{:.11}", k as f64 / d as f64 * std::f64::consts::PI),
+        // a pi-multiple plus a decimal (the second branch of param_to_phase): k/d = (2k - d)/(2d) + 1/2
+        "mixed" => {
+            let (k2, d2) = (2 * k - d, 2 * d);
+            format!("{}{}*pi/{} + 1.570796", if k2 < 0 { "-" } else { "" }, k2.abs(), d2)
+        }
         _ => panic!("form {form}"),
     }
 }
